@@ -22,6 +22,7 @@ type Ctx struct {
 	w     *bufio.Writer
 	n     int
 	stats map[string]int
+	hangs int
 	Args  []string
 	Start time.Time
 }
@@ -49,8 +50,21 @@ func (c *Ctx) Oracle(n int, ok bool, reason string) {
 	defer c.mu.Unlock()
 	if ok {
 		fmt.Fprintf(c.w, "oracle %d ok\n", n)
-	} else {
-		fmt.Fprintf(c.w, "oracle %d FAIL %s\n", n, strings.ReplaceAll(reason, "\n", " | "))
+		return
+	}
+	fmt.Fprintf(c.w, "oracle %d FAIL %s\n", n, strings.ReplaceAll(reason, "\n", " | "))
+	// every hang costs a watchdog period: once a tree hangs this often the verdict is clear, stop instead of timing out
+	if strings.Contains(reason, "hang") || strings.Contains(reason, "did not return") {
+		c.hangs++
+		if c.hangs >= 40 {
+			fmt.Fprintf(c.w, "diag family aborted after %d hanging cases (the remaining cases were not run)\n", c.hangs)
+			for k, v := range c.stats {
+				fmt.Fprintf(c.w, "stat %s %d\n", k, v)
+			}
+			fmt.Fprintf(c.w, "done %d\n", c.n)
+			c.w.Flush()
+			os.Exit(0)
+		}
 	}
 }
 
